@@ -4,10 +4,10 @@ CONSTANTS
   n2 = n2
   n3 = n3
   Nodes <- N2
-  NW = 3
-  WKeys <- KeysMix3
-  WKinds <- KindsMix3
-  WVia <- Via121
+  NW = 2
+  WKeys <- KeysMix2
+  WKinds <- KindsMix2
+  WVia <- Via12
   SnapCount = 1
   CatchUp = 0
   MaxCrashes = 2
